@@ -44,77 +44,6 @@ def run_job(kind, key):
     raise CheckerError(kind)
 
 
-REPLAY = r'''
-import itertools, json, sys
-from vc import trees as T
-from depccg.printer import conll
-Tree, Token, Category = T.Tree, T.Token, T.Category
-N = T.Category.parse('N')
-
-def shapes(n):
-    """all tree views with n words: ('L',) | ('U', c) | ('B', l, r, head_is_left); unary chains of length <= 1"""
-    if n == 1:
-        base = [('L',)]
-    else:
-        base = [('B', l, r, h) for k in range(1, n) for l in shapes(k) for r in shapes(n - k) for h in (True, False)]
-    return base + [('U', b) for b in base if b[0] != 'U']
-
-def build(v, counter=[0]):
-    if v[0] == 'L':
-        counter[0] += 1
-        return Tree.make_terminal(Token(word='w%d' % counter[0]), N)
-    if v[0] == 'U':
-        return Tree.make_unary(N, build(v[1]))
-    return Tree.make_binary(N, build(v[1]), build(v[2]), 'fa', '>', v[3])
-
-def nleaves(v):
-    return 1 if v[0] == 'L' else nleaves(v[1]) if v[0] == 'U' else nleaves(v[1]) + nleaves(v[2])
-
-def headpos(v):
-    if v[0] == 'L':
-        return 0
-    if v[0] == 'U':
-        return headpos(v[1])
-    return headpos(v[1]) if v[3] else nleaves(v[1]) + headpos(v[2])
-
-def dep(v, i):
-    if v[0] == 'L':
-        return -1
-    if v[0] == 'U':
-        return dep(v[1], i)
-    nl = nleaves(v[1])
-    if i < nl:
-        if i == headpos(v[1]):
-            return -1 if v[3] else nl + headpos(v[2])
-        return dep(v[1], i)
-    if i - nl == headpos(v[2]):
-        return headpos(v[1]) if v[3] else -1
-    return nl + dep(v[2], i - nl)
-
-for n in range(1, 5):
-    for v in shapes(n):
-        want = [-1 if i == headpos(v) else dep(v, i) for i in range(n)]
-        try:
-            got = list(conll._resolve_dependencies(build(v)))
-        except Exception as e:
-            got = 'raises %s: %s' % (type(e).__name__, e)
-        if got != want:
-            print(json.dumps(dict(reproduced=True, tree=repr(v), got=got, want=want)))
-            sys.exit(0)
-print(json.dumps(dict(reproduced=False)))
-'''
-
-
-def replay():
-    rc, out, err = engine.run_real(REPLAY, timeout=300, env_extra=dict(VERIF_REPO=engine.REPO))
-    try:
-        d = json.loads(out.strip().splitlines()[-1])
-    except Exception:
-        return dict(reproduced=False, stdout=out[-500:], stderr=err[-800:])
-    d['how'] = 'real _resolve_dependencies on every tree view with <= 4 words (both head directions, unary steps) against the spec functions nleaves / headpos / dep'
-    return d
-
-
 def main(tier='quick', seed=0):
     t0 = time.time()
     jobs = [('contract', 'depccg/printer/conll.py::_resolve_dependencies.rec'), ('contract', 'depccg/printer/conll.py::_resolve_dependencies'),
@@ -125,11 +54,7 @@ def main(tier='quick', seed=0):
         records.extend(r.get('records', []))
         if r.get('error'):
             errors.append(f"{r['error']} (job {r['job']})")
-    if any(r['verdict'] == 'failed' and 'conll' in r['name'] for r in records):
-        rp = replay()
-        for r in records:
-            if r['verdict'] == 'failed' and 'conll' in r['name']:
-                r['replay'] = rp
+    pr.replay_views(records)
     assumptions = [
         'deductive part: the conll dependency column, and the element structure of C&C xml (`_process_tree`: one lf per word with start = its offset counted from 0 per tree, span 1, its category text and its token\'s attributes; '
         'one rule element per inner node with its label and category text, children in order) as equality with the recursive spec encoding enc_xml(tree, 0). Tree view Leaf | Un | Bin(head_is_left) with the attribute meanings checked against the real tree.py properties on the three shapes Tree.__init__ admits; '
